@@ -122,14 +122,17 @@ func init() {
 	}
 	registry["C01"] = &Property{
 		Quick:    []HarnessSpec{c01(1, 1, 0x80, 0, 300), c01(1, 0, 0x40, 0, 300), c01(2, 1, 0x80, 3, 600),
-			{Name: "VC01_MultiReadAt", Params: map[string]int{"vsymC01Parts": 2}, TimeoutSec: 300, NeedReach: []string{"end"}}},
+			{Name: "VC01_MultiReadAt", Params: map[string]int{"vsymC01Parts": 2}, TimeoutSec: 300, NeedReach: []string{"end"}},
+			{Name: "VC01_Coverage", MaxDecisions: 2000, TimeoutSec: 300, NeedReach: []string{"covered", "excluded", "end"}}},
 		Thorough: []HarnessSpec{c01(0, 1, 0x80, 0, 600), c01(1, 1, 0x80, 0, 600), c01(1, 0, 0x40, 0, 600), c01(1, 1, 0xf8, 0, 600), c01(2, 1, 0x80, 0, 3000), c01(2, 0, 0x80, 0, 3000), c01(3, 1, 0x80, 1, 7200),
-			{Name: "VC01_MultiReadAt", Params: map[string]int{"vsymC01Parts": 3}, TimeoutSec: 1800, NeedReach: []string{"end"}}},
+			{Name: "VC01_MultiReadAt", Params: map[string]int{"vsymC01Parts": 3}, TimeoutSec: 1800, NeedReach: []string{"end"}},
+			{Name: "VC01_Coverage", MaxDecisions: 2000, TimeoutSec: 600, NeedReach: []string{"covered", "excluded", "end"}}},
 		Bounds: []string{"symbolic image: length <= 2^24 and every byte symbolic; SizeOfHeaders, every section's PointerToRawData/SizeOfRawData (any header order, zero-size sections, gaps), certificate directory (absent or at the end, 8-aligned), trailing data and file length mod 8 all symbolic",
 			"shape (enumerated): sections 1..2 (quick; the two-section shape with raw data in both and no certificate table) / 0..3 (thorough), PE32 and PE32+, NumberOfRvaAndSizes=16, e_lfanew in {0x40,0x80} (quick) + 0xf8 (thorough), machine AMD64",
 			"positional reader lemma: 2 (quick) / 3 parts of symbolic content and size <= 2^20 each, any offset <= 2^23 and request length <= 2^22",
+			"coverage on the shipped test image (unsigned and with an appended table): one byte changed, position symbolic within each 512-byte section window / every checksum byte / every 4th table byte, value symbolic: digest changes iff covered",
 			"oracle: SHA-256 of the byte string of steps 3-14 of the Microsoft Authenticode specification, built in the harness from the raw bytes (not through debug/pe); equality decided through the hash model (functional consistency) and structural equality of the two byte strings"},
-		Outside: []string{"more sections than the bound, images of 16 MiB and more, COFF symbol tables, relocations, string-table section names, other NumberOfRvaAndSizes", "the per-position coverage statement (flip => digest changes) is implied only through the oracle equality and collision resistance of SHA-256; it is not separately decided yet"},
+		Outside: []string{"more sections than the bound, images of 16 MiB and more, COFF symbol tables, relocations, string-table section names, other NumberOfRvaAndSizes", "per-position coverage is decided on the shipped test image only (section bytes with symbolic position, checksum bytes, certificate-table bytes); header positions and the directory entry follow from the symbolic oracle equality plus collision resistance"},
 		Assumptions: append([]string{"SHA-256 is modelled as an uninterpreted function with functional consistency; real SHA-256 is used on concrete inputs and in native replays"}, commonAssumptions...),
 	}
 	c03 := func(name string, nsec, plus, appends, timeout int) HarnessSpec {
